@@ -3,6 +3,6 @@ CONSTANTS
   MaxProcs = 5
   MaxOps = 4
 
-INVARIANTS RunningListedOnce LookupRunning ReuseRule NoResurrection
+INVARIANTS RunningListedOnce LookupRunning ReuseRule NoResurrection TextLookup TextLookupFinds
 PROPERTIES IdStable
 CHECK_DEADLOCK FALSE
